@@ -454,7 +454,26 @@ def _assigned_names(fn):
     return out
 
 
-def inline_clone(fn, call):
+def _pure_arg(e):
+    """side-effect free argument expression: what _simple_arg accepts, plus computed member reads and arithmetic /
+    bitwise operators over pure operands (words[i - 15], OFFSET + 4)"""
+    e = unparen(e)
+    t = e.get("type")
+    if _simple_arg(e):
+        return True
+    if t == "MemberExpression":
+        if not _pure_arg(e["object"]):
+            return False
+        pr = e["property"]
+        return pr["type"] == "Identifier" or (pr["type"] == "Computed" and _pure_arg(pr["expression"]))
+    if t == "BinaryExpression" and e["operator"] in ("+", "-", "*", "/", "%", "&", "|", "^", "<<", ">>", ">>>"):
+        return _pure_arg(e["left"]) and _pure_arg(e["right"])
+    if t == "UnaryExpression" and e["operator"] in ("-", "+", "~"):
+        return _pure_arg(e["argument"])
+    return False
+
+
+def inline_clone(fn, call, pure=False):
     """deep copy of the helper's body in which every parameter that receives a simple argument (identifier, this.x,
     literal), is never reassigned and cannot be captured by a local declaration is replaced by that argument.
     Parameters that cannot be substituted keep their own names (the argument stays visible at the call)."""
@@ -468,7 +487,7 @@ def inline_clone(fn, call):
     assigned = _assigned_names(fn)
     sub = {}
     for i, pn in enumerate(params):
-        if pn is None or i >= len(args) or pn in assigned or not _simple_arg(args[i]):
+        if pn is None or i >= len(args) or pn in assigned or not (_pure_arg(args[i]) if pure else _simple_arg(args[i])):
             continue
         free = {x["value"] for x in walk(args[i]) if x["type"] == "Identifier"}
         if free & declared:
@@ -519,3 +538,99 @@ def walk_inl(mod, cname, node, depth=2, _stack=(), private_only=False):
             body, _ = inline_clone(fn, n)
             for x in walk_inl(mod, owner or cname, body, depth - 1, _stack + (id(fn),), private_only):
                 yield x
+
+
+
+def flatten_fn(mod, cname, fn, depth=3, only=None, _stack=()):
+    """A copy of the function in which calls of local helpers (module-level functions, methods of the class reached
+    through `this`) are replaced by what they compute, so that rules which recognise a computation by its shape see
+    it whether or not a maintainer has moved parts of it into helpers:
+      * a helper whose body is `return <expr>` becomes that expression, with the arguments substituted;
+      * `helper(args);` as a statement becomes a block holding the helper's body;
+      * `const x = helper(args);` becomes a block with the helper's body followed by `const x = <returned expr>`
+        when the helper ends in its only `return`.
+    A helper is only inlined when every parameter it uses receives a side-effect free argument and is never
+    reassigned; `only(helper_fn, call)` can restrict which helpers are inlined; never recursive, `depth` levels."""
+    import copy
+
+    def usable(H, call):
+        if H.get("body") is None or id(H) in _stack or depth <= 0:
+            return None
+        if only is not None and not only(H, call):
+            return None
+        body, sub = inline_clone(H, call, pure=True)
+        pnames = []
+        for p in H.get("params", []):
+            pat = p.get("pat", p)
+            pnames.append(pat["value"] if pat.get("type") == "Identifier" else None)
+        used = {x["value"] for x in walk(H["body"]) if x["type"] == "Identifier"}
+        if any(pn is None or (pn in used and pn not in sub) for pn in pnames):
+            return None
+        return body
+
+    def again(node, H, owner):
+        wrap = {"type": "FunctionExpression", "params": [], "body": node if node.get("type") == "BlockStatement" else
+                {"type": "BlockStatement", "span": node.get("span"), "stmts": [{"type": "ReturnStatement", "span": node.get("span"), "argument": node}]},
+                "span": node.get("span")}
+        out = flatten_fn(mod, owner or cname, wrap, depth - 1, only, _stack + (id(H), id(fn)))
+        return out["body"] if node.get("type") == "BlockStatement" else out["body"]["stmts"][0]["argument"]
+
+    def tx(n):
+        if isinstance(n, list):
+            return [tx(x) for x in n]
+        if not isinstance(n, dict):
+            return n
+        if "stmts" in n and isinstance(n["stmts"], list):
+            out = dict(n)
+            out["stmts"] = block(n["stmts"])
+            return out
+        out = {k: (tx(v) if k not in ("span", "ctxt") else v) for k, v in n.items()}
+        if out.get("type") == "CallExpression":
+            r = resolve_local_call(mod, cname, out)
+            if r is not None:
+                H, owner = r
+                st = (H.get("body") or {}).get("stmts") or []
+                if len(st) == 1 and st[0]["type"] == "ReturnStatement" and st[0].get("argument") is not None:
+                    body = usable(H, out)
+                    if body is not None:
+                        ret = again(body["stmts"][0]["argument"], H, owner)
+                        return {"type": "ParenthesisExpression", "span": out.get("span"), "expression": ret}
+        return out
+
+    def block(stmts):
+        res = []
+        for st0 in stmts:
+            st = tx(st0)
+            call, decl = None, None
+            if st.get("type") == "ExpressionStatement" and unparen(st["expression"]).get("type") == "CallExpression":
+                call = unparen(st["expression"])
+            elif st.get("type") == "VariableDeclaration" and len(st["declarations"]) == 1 and st["declarations"][0].get("init") is not None \
+                    and unparen(st["declarations"][0]["init"]).get("type") == "CallExpression" and st["declarations"][0]["id"].get("type") == "Identifier":
+                call, decl = unparen(st["declarations"][0]["init"]), st
+            if call is not None:
+                r = resolve_local_call(mod, cname, call)
+                if r is not None:
+                    H, owner = r
+                    hst = (H.get("body") or {}).get("stmts") or []
+                    single_ret = len(hst) == 1 and hst[0]["type"] == "ReturnStatement"
+                    if hst and not single_ret:
+                        body = usable(H, call)
+                        if body is not None:
+                            rets = [x for x in walk_no_nested_fn(body) if x["type"] == "ReturnStatement"]
+                            if decl is None and all(x.get("argument") is None for x in rets):
+                                res.append(again(body, H, owner))
+                                continue
+                            if decl is not None and len(rets) == 1 and body["stmts"][-1] is rets[0] and rets[0].get("argument") is not None:
+                                pre = dict(body)
+                                pre["stmts"] = body["stmts"][:-1]
+                                res.append(again(pre, H, owner))
+                                d2 = copy.deepcopy(decl)
+                                d2["declarations"][0]["init"] = again(rets[0]["argument"], H, owner)
+                                res.append(d2)
+                                continue
+            res.append(st)
+        return res
+    out = dict(fn)
+    if fn.get("body") is not None:
+        out["body"] = tx(fn["body"])
+    return out
